@@ -307,14 +307,14 @@ class FullExecutor(Executor):
             return r
         if name == "values" and not args:
             # the values view, as a fresh list in an ARBITRARY order (iteration order is not modelled; two calls are not assumed to
-            # agree): element i is the value stored under a key kf(i); these keys are pairwise distinct and cover the dict
+            # agree): element i is the value stored under a key kf(i) of the dict; every key has such a position (that each key is
+            # enumerated ONCE is not assumed: nothing proved so far needs it, and the pairwise axiom is costly for the solver)
             r = fresh_seq(TList(t.v), st, "values")
             n, arr = seq_len(r), seq_arr(r)
             kf = z3.Function(T.fresh_name("valkey"), z3.IntSort(), t.k.sort())
-            i, j = z3.Int(T.fresh_name("qvl")), z3.Int(T.fresh_name("qvl"))
+            i = z3.Int(T.fresh_name("qvl"))
             st.assume(forall([i], z3.Implies(z3.And(0 <= i, i < n),
                                              z3.And(z3.Select(s.dom(recv.z), kf(i)), z3.Select(arr, i) == z3.Select(s.val(recv.z), kf(i))))))
-            st.assume(forall([i, j], z3.Implies(z3.And(0 <= i, i < j, j < n), kf(i) != kf(j))))
             x = z3.Const(T.fresh_name("qk"), t.k.sort())
             wit = z3.Function(T.fresh_name("valw"), t.k.sort(), z3.IntSort())
             st.assume(forall([x], z3.Implies(z3.Select(s.dom(recv.z), x), z3.And(0 <= wit(x), wit(x) < n, kf(wit(x)) == x))))
